@@ -632,7 +632,16 @@ func vfRunConnScenario(cfg vfConnScenarioCfg) (events []map[string]interface{}, 
 		}
 	}
 	// "closed" as found at quiescence, before the harness' own Close: a torn frame must have closed it
-	vfEmitWire(tr, mc, wireBase, connID, cfg.Proto, closed || !(settled))
+	// ("closed" means the socket: a connection merely marked closed whose socket stays open for 5 s
+	// more was not closed)
+	sockClosed := closed
+	if closed {
+		for i := 0; i < 2500 && !mc.IsClosed(); i++ {
+			time.Sleep(2 * time.Millisecond)
+		}
+		sockClosed = mc.IsClosed()
+	}
+	vfEmitWire(tr, mc, wireBase, connID, cfg.Proto, sockClosed || !(closed || settled))
 	sc.gates.ReleaseAll()
 	return tr.Events(), ""
 }
